@@ -297,6 +297,14 @@ func (c *Client) Listen() error {
 				break
 			}
 
+			// A stream transport (STUNConn) reports the full size of a frame even when it is
+			// larger than the buffer: such a message cannot be handled whole and is dropped.
+			if n > len(buf) {
+				c.log.Debugf("Discarding a message of %d bytes that exceeds the read buffer", n)
+
+				continue
+			}
+
 			// A packet that cannot be handled is discarded; it must not end the read
 			// loop, or a single malformed datagram from anyone would leave the client deaf.
 			_, err = c.HandleInbound(buf[:n], from)
